@@ -2330,3 +2330,113 @@ def where_ext(interp, a, b):
                    z3.ForAll([j], z3.Implies(z3.And(j >= 0, j < ia.n), ia.sel(j) == ib.sel(j))),
                    z3.ForAll([k], z3.Implies(z3.And(k >= 0, k < a.n, a.sel(k)), ia.rank(k) == ib.rank(k))))
     return z3.Implies(same, concl)
+
+
+# --------------------------------------------------------------------------
+# finite sets of integers (python set of ints) as predicates
+# --------------------------------------------------------------------------
+class SSet(Sym):
+    def __init__(self, pred):
+        self.pred = pred          # z3 Int term -> z3 Bool
+
+
+def list_member(L):
+    def pred(x):
+        j = _bound("j")
+        return z3.Exists([j], z3.And(j >= 0, j < L.n, L.sel(j) == x))
+    return pred
+
+
+def member_pred(L):
+    """membership predicate of a list value; lists that enumerate a set or are a
+    concatenation are unfolded (set(list(S)) == S, set(a + b) == set(a) | set(b))"""
+    if getattr(L, "from_set", None) is not None:
+        return L.from_set.pred
+    if getattr(L, "concat_of", None) is not None:
+        pa, pb = member_pred(L.concat_of[0]), member_pred(L.concat_of[1])
+        return lambda x: z3.Or(pa(x), pb(x))
+    return list_member(SArr(L.n, L.a, "int"))
+
+
+def enum_set(interp, S, sorted_=False, name="enum"):
+    """list(S) / sorted(S): a fresh sequence enumerating the finite set S without
+    repetition (strictly increasing when sorted)"""
+    ctx = interp.ctx
+    axiom("P-SET (a finite set can be enumerated without repetition; sorted() orders it)")
+    E = ctx.arr(name, "int")
+    E.is_list = True
+    j, i, x = z3.Int("j!es"), z3.Int("i!es"), z3.Int("x!es")
+    ctx.assume(z3.ForAll([j], z3.Implies(z3.And(j >= 0, j < E.n), S.pred(E.sel(j)))))
+    ctx.assume(z3.ForAll([x], z3.Implies(S.pred(x), z3.Exists([j], z3.And(j >= 0, j < E.n, E.sel(j) == x)))))
+    if sorted_:
+        ctx.assume(z3.ForAll([i, j], z3.Implies(z3.And(i >= 0, i < j, j < E.n), E.sel(i) < E.sel(j))))
+    else:
+        ctx.assume(z3.ForAll([i, j], z3.Implies(z3.And(i >= 0, i < j, j < E.n), E.sel(i) != E.sel(j))))
+    E.from_set = S
+    return E
+
+
+@model(set)
+def _set(interp, it=()):
+    eng = _engine()
+    if isinstance(it, SSet):
+        return it
+    if isinstance(it, SArr) and it.kind == "int":
+        return SSet(member_pred(it))
+    if not eng._has_sym(it):
+        return set(it)
+    raise eng.Unsupported("set() of " + type(it).__name__)
+
+
+_list_prev = _MODELS[list]
+
+
+def _list_set(interp, it=()):
+    if isinstance(it, SSet):
+        return enum_set(interp, it)
+    return _list_prev(interp, it)
+
+
+_MODELS[list] = _list_set
+_sorted_prev2 = _MODELS[sorted]
+
+
+def _sorted_set(interp, it, key=None, reverse=False):
+    if isinstance(it, SSet) and key is None and not reverse:
+        return enum_set(interp, it, sorted_=True, name="sorted")
+    if isinstance(it, SArr) and getattr(it, "is_list", False) and it.kind == "int" and key is None and not reverse:
+        if getattr(it, "from_set", None) is not None:
+            return enum_set(interp, it.from_set, sorted_=True, name="sorted")
+        raise _engine().Unsupported("sorted() of a symbolic list that may contain repetitions")
+    return _sorted_prev2(interp, it, key=key, reverse=reverse)
+
+
+_MODELS[sorted] = _sorted_set
+_binop_prev2 = binop
+
+
+def binop(interp, op, a, b, inplace=False):   # noqa: F811
+    if isinstance(a, SSet) and isinstance(b, SSet):
+        if op == "Sub":
+            return SSet(lambda x, p=a.pred, q=b.pred: z3.And(p(x), z3.Not(q(x))))
+        if op == "BitOr":
+            return SSet(lambda x, p=a.pred, q=b.pred: z3.Or(p(x), q(x)))
+        if op == "BitAnd":
+            return SSet(lambda x, p=a.pred, q=b.pred: z3.And(p(x), q(x)))
+    if op == "Add" and isinstance(a, SArr) and isinstance(b, SArr) \
+            and getattr(a, "is_list", False) and getattr(b, "is_list", False) and not inplace:
+        k = _bound()
+        an, aa, ba = a.n, a.a, b.a
+        r = SArr(z3.simplify(a.n + b.n), z3.Lambda([k], z3.If(k < an, z3.Select(aa, k), z3.Select(ba, k - an))),
+                 a.kind)
+        r.is_list = True
+        r.birth = interp.ctx.stamp
+        r.concat_of = (a, b)
+        return r
+    return _binop_prev2(interp, op, a, b, inplace)
+
+
+@model(super)
+def _super(interp, cls=None, obj=None):
+    """super(C, self): calls on the proxy are resolved by contracts named 'Super.<method>'"""
+    return interp.ctx.obj("Super", {"obj": obj, "cls": getattr(cls, "__name__", str(cls))})
